@@ -135,7 +135,7 @@ struct Runner {
     std::string name;           // space name
     uint64_t total = 0;
     int workers = 16;
-    double case_timeout_s = 20; // per-case wall watchdog
+    double case_timeout_s = 60; // per-case wall watchdog (generous: the sandbox can be heavily loaded)
     double deadline_s = 0;      // global deadline (0 = none); cases not started are reported
     std::string out;
     std::function<void(uint64_t, Ctx&)> fn;
